@@ -610,6 +610,8 @@ func c02Partitions(p *Prog, l *Ledger, locks *LockInfo) {
 		npaths := 0
 		var bad []string
 		var relFn *ssa.Function
+		var relFr *frame
+		var relAt ssa.Instruction
 		EnumPaths(fn, 200000, func(pa *Path) bool {
 			rv := pa.ReturnValues()
 			if len(rv) != 2 {
@@ -665,32 +667,50 @@ func c02Partitions(p *Prog, l *Ledger, locks *LockInfo) {
 					relArg = a
 				}
 			}
-			rc, ok := strip(relArg, false).(*ssa.Call)
-			if !ok {
-				bad = append(bad, "cannot resolve the release function of the granted token")
+			// the release function (a closure, a method value of a carrier struct, or what a helper builds from the charged
+			// partition) is analysed once, in TryAcquire's frame; here: it releases the very bin this path charged
+			rf, rfr := p.funcValueFrame(relArg, nil)
+			if rf == nil || rf.Blocks == nil {
+				bad = append(bad, "cannot resolve the release function of the granted token: "+valueString(strip(relArg, false)))
 				return len(bad) < 3
 			}
-			rcc := p.CallOf(rc)
-			if rcc.Static == nil || len(rcc.Args) != 1 {
-				bad = append(bad, "release function is not built by a helper taking the charged partition")
+			if relFn == nil {
+				relFn, relFr, relAt = rf, rfr, tokCall
+			} else if relFn != rf {
+				bad = append(bad, "grant paths build their release functions differently")
 				return len(bad) < 3
 			}
-			if pa.Resolve(rcc.Args[0], last) != binObj {
-				bad = append(bad, fmt.Sprintf("%s: the release closure is bound to a different partition than the one charged", p.At(rc)))
+			for _, root := range c02ReleasedBins(p, rf, rfr) {
+				sameObj := func(a, b ssa.Value) bool {
+					norm := func(v ssa.Value) ssa.Value {
+						v = strip(v, false)
+						if u, ok := v.(*ssa.UnOp); ok && u.Op == token.MUL {
+							return strip(u.X, false) // the slot a pointer was loaded from names the object
+						}
+						return v
+					}
+					return a != nil && b != nil && norm(a) == norm(b)
+				}
+				if root == nil || !sameObj(pa.Resolve(root, last), binObj) {
+					bad = append(bad, fmt.Sprintf("%s: the release function is bound to a different partition than the one charged (%s)", p.At(tokCall), valueString(root)))
+				}
 			}
-			relFn = rcc.Static
 			return len(bad) < 3
 		})
 		l.Count("paths", npaths)
 		l.Check(len(bad) == 0 && npaths > 0, "O5", key, p.FuncPos(fn), fmt.Sprintf("%d paths; grants charge total+1 and one bin, refusals touch nothing; the release closure captures the charged partition", npaths), "bins and total can drift apart", bad...)
 		if relFn == nil {
+			l.Bad("O5", key+"/release", p.FuncPos(fn), "no grant path hands a release function to its token")
 			continue
 		}
-		// the closure returned by relFn
-		for _, cl := range relFn.AnonFuncs {
+		_ = relAt
+		// the release function itself: total-1 once under the strategy's exclusive mutex, one bin released
+		{
+			cl := relFn
 			ckey := p.Key(cl)
 			var cbad []string
 			n := 0
+			var binType *types.Named
 			EnumPaths(cl, 10000, func(pa *Path) bool {
 				if !pa.IsReturn() {
 					return true
@@ -698,15 +718,17 @@ func c02Partitions(p *Prog, l *Ledger, locks *LockInfo) {
 				n++
 				total, ntotal, nbin := int64(0), 0, 0
 				pa.Each(func(step int, ins ssa.Instruction) bool {
-					if d, ok := p.DeltaOf(ins); ok && types.Identical(d.Field.Type, st) {
-						total += d.By
+					if tgt, by, ok := c02CounterUpdate(p, ins, relFr); ok && tgt.Root == ssa.Value(recv) && len(tgt.Fields) == 1 && types.Identical(tgt.Fields[0].Type, st) {
+						total += by
 						ntotal++
-						held := locks.Held(ins)
 						okLock := false
-						bap := AccessPath(d.Base).String()
-						for _, m := range mutexFields(st) {
-							if ex, ok := held[bap+"."+m]; ok && ex {
-								okLock = true
+						for _, h := range c02HeldOuter(p, locks, cl, relFr, ins) {
+							if h.Root == ssa.Value(recv) && len(h.Fields) == 1 {
+								for _, m := range mutexFields(st) {
+									if h.Fields[0].Name == m {
+										okLock = true
+									}
+								}
 							}
 						}
 						if !okLock {
@@ -715,27 +737,33 @@ func c02Partitions(p *Prog, l *Ledger, locks *LockInfo) {
 					}
 					if call, ok := ins.(*ssa.Call); ok {
 						c := p.CallOf(call)
-						if c.Static != nil && c.Recv != nil && c.Static.Name() == "Release" && p.InPkg(c.Static, "strategy") {
-							// receiver must be the captured partition parameter
-							ap := AccessPathThroughClosures(c.Recv)
-							if prm, ok := ap.Root.(*ssa.Parameter); ok && prm.Parent() == relFn && len(ap.Sel) == 0 {
-								nbin++
-							} else {
-								cbad = append(cbad, fmt.Sprintf("%s: releases a partition other than the captured one", p.At(ins)))
+						if c.Recv != nil && c.MethodName() == "Release" && (c.Iface != nil || (c.Static != nil && p.InPkg(c.Static, "strategy"))) {
+							nbin++
+							if c.Static != nil {
+								binType = derefNamed(c.Static.Signature.Recv().Type())
 							}
 						}
 					}
 					return true
 				})
 				if ntotal != 1 || total != -1 || nbin != 1 {
-					cbad = append(cbad, fmt.Sprintf("release closure changes total %d times by %+d and releases %d bins (want once, -1, one bin)", ntotal, total, nbin))
+					cbad = append(cbad, fmt.Sprintf("release function changes total %d times by %+d and releases %d bins (want once, -1, one bin)", ntotal, total, nbin))
 				}
 				return len(cbad) < 3
 			})
 			l.Check(len(cbad) == 0 && n > 0, "O5", ckey, p.FuncPos(cl), "gives back total-1 and the captured bin once, under the strategy mutex", "the release closure does not give back exactly what was charged", cbad...)
+			_ = binType
 		}
 		// bin Acquire / Release are +1 / -1 on the same field
-		pt := derefNamed(relFn.Params[len(relFn.Params)-1].Type())
+		var pt *types.Named
+		allInstrs(fn, func(ins ssa.Instruction) {
+			if call, ok := ins.(*ssa.Call); ok {
+				c := p.CallOf(call)
+				if c.Static != nil && c.Recv != nil && c.Static.Name() == "Acquire" && p.InPkg(c.Static, "strategy") {
+					pt = derefNamed(c.Static.Signature.Recv().Type())
+				}
+			}
+		})
 		if pt != nil {
 			for _, pair := range [][2]interface{}{{"Acquire", int64(1)}, {"Release", int64(-1)}} {
 				m := p.Method(pt, pair[0].(string))
@@ -992,4 +1020,84 @@ func (p *Prog) drainHelper(g *ssa.Function) string {
 		why = "no returning path"
 	}
 	return why
+}
+
+// c02CounterUpdate: ins changes a counter by a constant (x.f++ / x.f -= k / *p-- / atomic.Add); returns the counter's
+// access path named in the outermost frame of fr.
+func c02CounterUpdate(p *Prog, ins ssa.Instruction, fr *frame) (AP, int64, bool) {
+	if d, ok := p.DeltaOf(ins); ok {
+		if st, isStore := ins.(*ssa.Store); isStore {
+			return p.OuterAP(st.Addr, fr), d.By, true
+		}
+		return p.OuterAP(p.CallOf(ins).Args[0], fr), d.By, true
+	}
+	switch x := ins.(type) {
+	case *ssa.Store:
+		// *ptr = *ptr +/- k through a pointer that is not a field address
+		bo, ok := strip(x.Val, false).(*ssa.BinOp)
+		if !ok || (bo.Op != token.ADD && bo.Op != token.SUB) {
+			return AP{}, 0, false
+		}
+		k, isC := constInt(bo.Y)
+		if !isC {
+			return AP{}, 0, false
+		}
+		ld, ok := bo.X.(*ssa.UnOp)
+		if !ok || ld.Op != token.MUL || ld.X != x.Addr {
+			return AP{}, 0, false
+		}
+		if bo.Op == token.SUB {
+			k = -k
+		}
+		return p.OuterAP(x.Addr, fr), k, true
+	case *ssa.Call:
+		c := p.CallOf(x)
+		if atomicOpOf(c.Name) == "Add" && len(c.Args) == 2 {
+			if k, isC := constInt(c.Args[1]); isC {
+				return p.OuterAP(c.Args[0], fr), k, true
+			}
+		}
+	}
+	return AP{}, 0, false
+}
+
+// c02HeldOuter: the mutexes held exclusively at ins in fn, named in the outermost frame of fr.
+func c02HeldOuter(p *Prog, locks *LockInfo, fn *ssa.Function, fr *frame, ins ssa.Instruction) []AP {
+	var out []AP
+	held := locks.Held(ins)
+	allInstrs(fn, func(i2 ssa.Instruction) {
+		call, ok := i2.(*ssa.Call)
+		if !ok {
+			return
+		}
+		c := p.CallOf(call)
+		if op, key := p.lockOpOf(c); op == opLock {
+			if ex, ok := held[key]; ok && ex {
+				out = append(out, p.OuterAP(c.Recv, fr))
+			}
+		}
+	})
+	return out
+}
+
+// c02ReleasedBins: the receivers of the partition Release calls made by the release function, named in the outermost
+// frame (the frame of TryAcquire).
+func c02ReleasedBins(p *Prog, fn *ssa.Function, fr *frame) []ssa.Value {
+	var out []ssa.Value
+	allInstrs(fn, func(ins ssa.Instruction) {
+		call, ok := ins.(*ssa.Call)
+		if !ok {
+			return
+		}
+		c := p.CallOf(call)
+		if c.Recv != nil && c.MethodName() == "Release" && (c.Iface != nil || (c.Static != nil && p.InPkg(c.Static, "strategy"))) {
+			ap := p.OuterAP(c.Recv, fr)
+			if len(ap.Sel) == 0 {
+				out = append(out, ap.Root)
+			} else {
+				out = append(out, nil)
+			}
+		}
+	})
+	return out
 }
